@@ -865,15 +865,22 @@ ComponentPtr flattenComponent(const ComponentEntityPtr &parent, ComponentPtr &co
         // the renaming as before (a name used by the imported component's own descendants goes to that descendant).
         ComponentNameMap placeholderComponentNames = createComponentNamesMap(component);
         newComponentNames.insert(placeholderComponentNames.begin(), placeholderComponentNames.end());
+        // A new name must differ from the names in the importing model, from the names that stay in the imported
+        // hierarchy and from the new names already given.
+        NameList usedNames = compNames;
+        for (const auto &entry : newComponentNames) {
+            usedNames.push_back(entry.first);
+        }
         for (const auto &entry : newComponentNames) {
             std::string originalName = entry.first;
-            size_t count = 0;
-            std::string newName = originalName;
-            while (std::find(compNames.begin(), compNames.end(), newName) != compNames.end()) {
-                newName = originalName + "_" + convertToString(++count);
-            }
-            if (originalName != newName) {
+            if (std::find(compNames.begin(), compNames.end(), originalName) != compNames.end()) {
+                size_t count = 0;
+                std::string newName = originalName;
+                while (std::find(usedNames.begin(), usedNames.end(), newName) != usedNames.end()) {
+                    newName = originalName + "_" + convertToString(++count);
+                }
                 entry.second->setName(newName);
+                usedNames.push_back(newName);
             }
         }
 
